@@ -1,6 +1,6 @@
 open Model
 open Fpmodel
-(* effects <sw> <has_ext> <initial opts keys: list int> <ops: list (cls pass_opts sup hc solve)>
+(* effects <sw> <has_ext> <initial opts keys: list int> <ops: list (cls pass_opts sup hc solve refused)>   (refused = 1: the construction raised; Effects.Refused, heap after any prefix of its effects)
      sw = 1: the list-aliasing finding (external_safe_paths) is open -> the summary of the code at 003f186; 0: the list is copied
    ->  per step "keys of optimization_options ; number of extensions of the external_safe_paths list", steps separated by "|"
    (key codes: 0 trusted_edges_for_safety, 1 allow_empty_paths, 2 optimize_with_safe_paths,
@@ -20,12 +20,14 @@ let () = register "effects" (fun () ->
   let d = next_list (fun () -> key_of_int (next ())) in
   let ops = next_list (fun () ->
     let c = cls_of_int (next ()) in let p = next_bool () in let s = next_bool () in let hc = next_bool () in
-    let sv = next_bool () in { o_cls = c; o_pass_opts = p; o_sup = s; o_hc = hc; o_solve = sv }) in
+    let sv = next_bool () in let refused = next_bool () in
+    let o = { o_cls = c; o_pass_opts = p; o_sup = s; o_hc = hc; o_solve = sv } in
+    if refused then Refused (o, nat_of_int 9) else Built o) in
   let h0 = { h_graph = []; h_opts = d; h_has_ext = has_ext; h_ext = []; h_sopts = []; h_cons = []; h_ign = []; h_starts = []; h_sup = [];
              h_ends = []; h_defaults = [] } in
   let rec go h acc = function
     | [] -> List.rev acc
-    | o :: r -> let h' = run_sw sw [o] h in
+    | o :: r -> let h' = ev_step_sw sw h o in
       go h' ((String.concat " " (List.map (fun k -> string_of_int (int_of_key k)) (h_opts h')) ^ " ; " ^
               string_of_int (List.length (h_ext h'))) :: acc) r in
   print_endline ("OK " ^ String.concat " | " (go h0 [] ops)))
